@@ -36,6 +36,8 @@ type guardEntry struct {
 	strip  int          // number of trailing path elements to strip to reach the lock owner
 	single bool         // lock owner is the singleton runner
 	isMap  bool
+	// condFlag: the field is the predicate of a sync.Cond wait loop; atomic operations on it count as accesses
+	condFlag bool
 }
 
 func (s *Sel) guardTable() []guardEntry {
@@ -68,7 +70,7 @@ func (s *Sel) guardTable() []guardEntry {
 		{name: "ProcessState.ExitCode", field: s.FExitCode, via: s.FProcState, lock: s.FConfMtx, strip: 2},
 		{name: "ProcessState.Health", field: s.FHealth, via: s.FProcState, lock: s.FStateMtx, strip: 2},
 		{name: "ProcessState.Restarts", field: s.FRestarts, via: s.FProcState, lock: s.FStateMtx, strip: 2},
-		{name: "Process.done", field: s.FDone, lock: procMutex, strip: 1},
+		{name: "Process.done", field: s.FDone, lock: procMutex, strip: 1, condFlag: true},
 		{name: "Process.started", field: s.FStarted, lock: procMutex, strip: 1},
 		{name: "ProcessLogBuffer.buffer", field: lb("buffer"), lock: lb("mx"), strip: 1},
 		{name: "ProcessLogBuffer.observers", field: lb("observers"), lock: lb("mx"), strip: 1, isMap: true},
@@ -90,6 +92,17 @@ func accessOf(in ssa.Instruction, g guardEntry) (kind string, pathVal ssa.Value,
 			}
 		}
 		return true
+	}
+	// the predicate of a condition variable stays a guarded field when it is made an atomic: it must change
+	// under the lock the waiter holds, otherwise the wake-up can be lost between the waiter's test and its Wait
+	if g.condFlag {
+		if op, _, isAt := AtomicOpOn(in, g.field); isAt {
+			fa := in.(ssa.CallInstruction).Common().Args[0]
+			if op == "Load" {
+				return "r", fa, true
+			}
+			return "w", fa, true
+		}
 	}
 	switch x := in.(type) {
 	case *ssa.Store:
@@ -154,10 +167,14 @@ func runC20(c *Ctx) {
 	rG := c.Rule("guarded-access", "every post-construction read or write of a field of the guard table happens with its designated mutex in the must-lockset (same owner object for per-instance locks)")
 	type hit struct {
 		key, pos, detail string
-		ok           bool
+		ok               bool
+		fn               *ssa.Function
+		name, kind       string
 	}
 	var hits []hit
 	seenKey := map[string]bool{}
+	var curFn *ssa.Function
+	var curName, curKind string
 	record := func(key, pos string, ok bool, detail string) {
 		if seenKey[key] {
 			// keep the worst verdict per key
@@ -171,7 +188,7 @@ func runC20(c *Ctx) {
 			return
 		}
 		seenKey[key] = true
-		hits = append(hits, hit{key, pos, detail, ok})
+		hits = append(hits, hit{key: key, pos: pos, detail: detail, ok: ok, fn: curFn, name: curName, kind: curKind})
 	}
 	for _, f := range p.Funcs {
 		if initPhase(f) {
@@ -222,6 +239,7 @@ func runC20(c *Ctx) {
 				}
 				c.Touch(f)
 				key := fmt.Sprintf("%s@%s:%s", g.name, p.FuncKey(f), kind)
+				curFn, curName, curKind = f, g.name, kind
 				record(key, p.InstrPos(in), held, fmt.Sprintf("%s of %s without %s held", map[string]string{"r": "read", "w": "write"}[kind], g.name, g.lock.Name()))
 				// a map header copied under the lock must also be used under it
 				if u, isU := in.(*ssa.UnOp); isU && g.isMap && held {
@@ -240,6 +258,7 @@ func runC20(c *Ctx) {
 						}
 						heldUse := ls.Holds(ref, g.lock, base)
 						if !heldUse {
+							curFn, curKind = nil, ""
 							record(fmt.Sprintf("%s@%s:use-outside-lock", g.name, p.FuncKey(f)), p.InstrPos(ref), false, fmt.Sprintf("%s is read into a local under %s but iterated/accessed after the lock was released (the local aliases the live map)", g.name, g.lock.Name()))
 						}
 					}
@@ -253,17 +272,132 @@ func runC20(c *Ctx) {
 					if PathOf(rv).LastField() == s.FProject && p.Deep(LoadOf("Processes", s.FProcesses)).May(sc) {
 						held := ls.Holds(in, s.FProcConfMutex, "")
 						key := fmt.Sprintf("project.Processes@%s:via-%s", p.FuncKey(f), sc.Name())
+						curFn, curKind = nil, ""
 						record(key, p.InstrPos(in), held, "the runner's project.Processes is read through "+p.FuncKey(sc)+" without procConfMutex held")
 					}
 				}
 			}
 		})
 	}
+	// An unlisted unguarded access in an unexported helper that is only called directly, and only from functions
+	// for which the same access is already listed, is the listed finding after an "extract function" edit: it is
+	// attributed to those callers. Anything else stays a new violation.
+	staticCallers := func(f *ssa.Function) ([]*ssa.Function, bool) {
+		var out []*ssa.Function
+		exact := true
+		for _, g := range p.Funcs {
+			AllInstrs(g, func(in ssa.Instruction) {
+				if ci, ok := in.(ssa.CallInstruction); ok {
+					if ci.Common().StaticCallee() == f {
+						if _, isCall := in.(*ssa.Call); isCall {
+							out = appendUniq(out, g)
+						} else {
+							exact = false // go / defer: a different context
+						}
+					}
+				}
+				// the function used as a value
+				for _, op := range in.Operands(nil) {
+					if *op == ssa.Value(f) {
+						if ci, ok := in.(ssa.CallInstruction); !ok || ci.Common().Value != ssa.Value(f) {
+							exact = false
+						}
+					}
+				}
+			})
+		}
+		return out, exact
+	}
+	for i := range hits {
+		h := &hits[i]
+		if h.ok || h.fn == nil || h.kind == "" || c.IsKnown(rG, h.key) {
+			continue
+		}
+		if h.fn.Parent() != nil || h.fn.Object() == nil || h.fn.Object().Exported() {
+			continue
+		}
+		callers, exact := staticCallers(h.fn)
+		if !exact || len(callers) == 0 {
+			continue
+		}
+		all := true
+		for _, g := range callers {
+			if !c.IsKnown(rG, fmt.Sprintf("%s@%s:%s", h.name, p.FuncKey(g), h.kind)) {
+				all = false
+			}
+		}
+		if all {
+			sort.Slice(callers, func(a, b int) bool { return p.FuncKey(callers[a]) < p.FuncKey(callers[b]) })
+			h.detail += " (in helper " + p.FuncKey(h.fn) + ", called only from listed " + p.FuncKey(callers[0]) + ")"
+			h.key = fmt.Sprintf("%s@%s:%s", h.name, p.FuncKey(callers[0]), h.kind)
+		}
+	}
 	sort.Slice(hits, func(i, j int) bool { return hits[i].key < hits[j].key })
 	for _, h := range hits {
 		c.Check(h.ok, rG, h.key, h.pos, "designated lock held", h.detail+" (concurrent API calls / life-cycle events race on it; for maps this is a fatal runtime error)")
 	}
 	c.Floor(rG, 40, "guarded access sites")
+
+	// aliasing of the log buffer: range queries hand out sub-slices of the live buffer, which their callers read
+	// after the buffer lock is released; that is safe only while the elements of the backing array are never
+	// overwritten in place (appending and re-slicing leave existing elements alone)
+	{
+		rAl := c.Rule("log-buffer-append-only", "whenever a method of the log buffer returns a slice of the live buffer (not a copy), no instruction overwrites elements of the buffer's backing array: no copy() or clear() whose destination derives from the buffer field and no store through an index of it")
+		fBuf := p.Field("pclog", "ProcessLogBuffer", "buffer")
+		fromBuf := func(v ssa.Value) bool {
+			for i := 0; i < 6; i++ {
+				v = stripConv(v)
+				if sl, ok := v.(*ssa.Slice); ok {
+					v = sl.X
+					continue
+				}
+				break
+			}
+			return PathOf(v).LastField() == fBuf
+		}
+		var leaks []*ssa.Function
+		var writes []ssa.Instruction
+		for _, f := range p.FuncsOfPkg("pclog") {
+			for _, ret := range returnsOf(f) {
+				for _, r := range ret.Results {
+					if _, isSl := r.Type().Underlying().(*types.Slice); isSl && fromBuf(r) {
+						leaks = appendUniq(leaks, f)
+					}
+					if ph, isPhi := r.(*ssa.Phi); isPhi {
+						for _, e := range ph.Edges {
+							if _, isSl := e.Type().Underlying().(*types.Slice); isSl && fromBuf(e) {
+								leaks = appendUniq(leaks, f)
+							}
+						}
+					}
+				}
+			}
+			AllInstrs(f, func(in ssa.Instruction) {
+				switch x := in.(type) {
+				case *ssa.Call:
+					if b, ok := x.Call.Value.(*ssa.Builtin); ok && (b.Name() == "copy" || b.Name() == "clear") && len(x.Call.Args) > 0 && fromBuf(x.Call.Args[0]) {
+						writes = append(writes, in)
+					}
+				case *ssa.Store:
+					if ia, ok := x.Addr.(*ssa.IndexAddr); ok && fromBuf(ia.X) {
+						writes = append(writes, in)
+					}
+				}
+			})
+		}
+		for _, f := range leaks {
+			c.Touch(f)
+		}
+		if len(leaks) == 0 {
+			c.OK(rAl, "no-alias-returned", "", "no method returns a slice of the live buffer")
+		} else {
+			pos := ""
+			if len(writes) > 0 {
+				pos = p.InstrPos(writes[0])
+			}
+			c.Check(len(writes) == 0, rAl, "in-place-writes", pos, fmt.Sprintf("%d method(s) return live sub-slices; the buffer is only appended to and re-sliced", len(leaks)), "elements of the log buffer are overwritten in place while "+p.FuncKey(leaks[0])+" hands out sub-slices of the same backing array that are read after the lock is released: a query in flight sees shifted or cleared lines, and a torn string header crashes the reader")
+		}
+	}
 
 	// pointer escape of the live state record
 	rEsc := c.Rule("state-pointer-escape", "no exported ProjectRunner method returns a pointer to a live ProcessState record (callers read its fields without any lock)")
